@@ -324,8 +324,8 @@ def explore_design(d, sub, res):
         poke(c, x)
         c.sim.clk(1)
         if Wire.prepared:
-            c.problem = {'sigkey': 'prepared_not_empty', 'left': [w.getFullPath() for w in Wire.prepared]}
-            Wire.prepared = []
+            c.problem = {'sigkey': 'prepared_not_empty', 'left': [getattr(w, 'name', repr(w)) for w in list(Wire.prepared)][:6]}
+            core.reset_prepared()
             return
         post = st.snapshot()
         # (1) every visit order
@@ -337,7 +337,7 @@ def explore_design(d, sub, res):
             res['evaluations'] += 1
             if Wire.prepared:
                 c.problem = {'sigkey': 'prepared_not_empty', 'schedule': repr(p)}
-                Wire.prepared = []
+                core.reset_prepared()
                 break
             got = st.snapshot()
             if got != post:
@@ -481,7 +481,7 @@ def replay(v):
                 w.put(val)
             c.sim.clk(1)
         snaps[repr(p)] = (c.st.snapshot(), list(Wire.prepared))
-        Wire.prepared = []
+        core.reset_prepared()
     distinct = {repr(s) for s in snaps.values()}
     out = {'design': d, 'orders_tried': len(P), 'distinct_final_states_over_orders': len(distinct)}
     bad = len(distinct) > 1 or any(s[1] for s in snaps.values())
